@@ -26,7 +26,7 @@ def run_one(exe, mode, name, maxk=100000, layers="ng", timeout=300, max_restarts
                 last_fault = parse_kv(l)
             elif l.startswith("k="):
                 r = parse_kv(l)
-                if r.get("fired") == "0":
+                if r.get("fired") == "0" or "checkpoints" in r:
                     out["final"] = r
                 else:
                     out["positions"].append(r)
